@@ -1,4 +1,5 @@
 import Proofs.C15.SatSound
+import Proofs.C15.Quorum
 import Model.C15.Bounds
 /-!
 C15 — soundness of the static witness bounds for the satisfier: what `satisfy` returns has at most
@@ -563,6 +564,14 @@ theorem bd_andor (x y z : Ms) (ht : Typed ctx (.andor x y z)) (hx : Typed ctx x)
     · intro ba bb h1 h2; exact ⟨bb + ba, by simp [info, h1, h2, addO], by omega⟩
     · intro ta tb h1 h2; simp [info, h1, h2, concatT, tIF]; omega
 
+/-- no `multi`, `multi_a` or `thresh` in the expression. -/
+def noQuorum : Ms → Bool
+  | .multi _ _ | .multi_a _ _ | .thresh _ _ _ => false
+  | .wrap _ x => noQuorum x
+  | .bin _ x y => noQuorum x && noQuorum y
+  | .andor x y z => noQuorum x && noQuorum y && noQuorum z
+  | _ => true
+
 theorem typed_of_s1Typed_wrap {w : Wrap} {x : Ms} (h : s1Typed ctx (.wrap w x) = true) :
     Typed ctx (.wrap w x) := by
   simp only [s1Typed, Bool.and_eq_true, decide_eq_true_eq] at h; exact h.1.2
@@ -575,33 +584,38 @@ theorem typed_of_s1Typed : ∀ (n : Ms), s1Typed ctx n = true → Typed ctx n
   | .wrap _ _, h => by simp only [s1Typed, Bool.and_eq_true, decide_eq_true_eq] at h; exact h.1.2
   | .bin _ _ _, h => by simp only [s1Typed, Bool.and_eq_true, decide_eq_true_eq] at h; exact h.1.1.2
   | .andor _ _ _, h => by simp only [s1Typed, Bool.and_eq_true, decide_eq_true_eq] at h; exact h.1.1.1
-  | .multi _ _, h | .multi_a _ _, h | .thresh _ _ _, h => by
-    simp [s1Typed] at h
+  | .multi k keys, _ => (ty_multi ctx k keys).1
+  | .multi_a k keys, _ => (ty_multi_a ctx k keys).1
+  | .thresh _ _ _, h => by
+    simp only [s1Typed, Bool.and_eq_true, decide_eq_true_eq] at h; exact h.1.1.1.1.1
 
-/-- the satisfier's candidates are within the static bounds, for the covered set. -/
+/-- the satisfier's candidates are within the static bounds, for the expressions without a quorum
+    fragment (the bound soundness of `multi`, `multi_a`, `thresh` is not proved). -/
 theorem bd_s1 (hS : SigsSmall ctx env) : ∀ (n : Ms), s1Typed ctx n = true → shaped ctx n = true →
-    BdN ctx env n
-  | .f0, _, _ => bd_f0 ctx env
-  | .f1, _, _ => bd_f1 ctx env
-  | .pk_k k, _, _ => bd_pk_k ctx env hS k
-  | .pk_h k, _, hs => bd_pk_h ctx env hS k (by simpa [shaped] using hs)
-  | .hash h d, _, _ => bd_hash ctx env h d
-  | .older n, _, _ => bd_older ctx env n
-  | .after n, _, _ => bd_after ctx env n
-  | .wrap w x, h, hs => by
+    noQuorum n = true → BdN ctx env n
+  | .f0, _, _, _ => bd_f0 ctx env
+  | .f1, _, _, _ => bd_f1 ctx env
+  | .pk_k k, _, _, _ => bd_pk_k ctx env hS k
+  | .pk_h k, _, hs, _ => bd_pk_h ctx env hS k (by simpa [shaped] using hs)
+  | .hash h d, _, _, _ => bd_hash ctx env h d
+  | .older n, _, _, _ => bd_older ctx env n
+  | .after n, _, _, _ => bd_after ctx env n
+  | .wrap w x, h, hs, hq => by
+    simp only [noQuorum] at hq
     have ht := typed_of_s1Typed ctx _ h
     simp only [s1Typed, Bool.and_eq_true, Bool.or_eq_true, beq_iff_eq, decide_eq_true_eq] at h
     simp only [shaped] at hs
-    refine bd_wrap ctx env w x ?_ ht (typed_of_s1Typed ctx x h.2) (bd_s1 hS x h.2 hs)
+    refine bd_wrap ctx env w x ?_ ht (typed_of_s1Typed ctx x h.2) (bd_s1 hS x h.2 hs hq)
     rcases h.1.1 with (((((h | h) | h) | h) | h) | h) | h <;> simp [h]
-  | .bin b x y, h, hs => by
+  | .bin b x y, h, hs, hq => by
+    simp only [noQuorum, Bool.and_eq_true] at hq
     have ht := typed_of_s1Typed ctx _ h
     simp only [s1Typed, Bool.and_eq_true, Bool.or_eq_true, beq_iff_eq, decide_eq_true_eq] at h
     simp only [shaped, Bool.and_eq_true] at hs
     have hx := typed_of_s1Typed ctx x h.1.2
     have hy := typed_of_s1Typed ctx y h.2
-    have ix := bd_s1 hS x h.1.2 hs.1
-    have iy := bd_s1 hS y h.2 hs.2
+    have ix := bd_s1 hS x h.1.2 hs.1 hq.1
+    have iy := bd_s1 hS y h.2 hs.2 hq.2
     rcases h.1.1.1 with ((((rfl | rfl) | rfl) | rfl) | rfl) | rfl
     · exact bd_and_v ctx env x y ht hx hy ix iy
     · exact bd_and_b ctx env x y ht hx hy ix iy
@@ -609,24 +623,25 @@ theorem bd_s1 (hS : SigsSmall ctx env) : ∀ (n : Ms), s1Typed ctx n = true → 
     · exact bd_or_i ctx env x y ht hx hy ix iy
     · exact bd_or_c ctx env x y ht hx hy ix iy
     · exact bd_or_d ctx env x y ht hx hy ix iy
-  | .andor x y z, h, hs => by
+  | .andor x y z, h, hs, hq => by
+    simp only [noQuorum, Bool.and_eq_true] at hq
     have ht := typed_of_s1Typed ctx _ h
     simp only [s1Typed, Bool.and_eq_true, decide_eq_true_eq] at h
     simp only [shaped, Bool.and_eq_true] at hs
     exact bd_andor ctx env x y z ht (typed_of_s1Typed ctx x h.1.1.2) (typed_of_s1Typed ctx y h.1.2)
-      (typed_of_s1Typed ctx z h.2) (bd_s1 hS x h.1.1.2 hs.1.1) (bd_s1 hS y h.1.2 hs.1.2)
-      (bd_s1 hS z h.2 hs.2)
-  | .multi _ _, h, _ | .multi_a _ _, h, _ | .thresh _ _ _, h, _ => by
-    simp [s1Typed] at h
+      (typed_of_s1Typed ctx z h.2) (bd_s1 hS x h.1.1.2 hs.1.1 hq.1.1) (bd_s1 hS y h.1.2 hs.1.2 hq.1.2)
+      (bd_s1 hS z h.2 hs.2 hq.2)
+  | .multi _ _, _, _, hq | .multi_a _ _, _, _, hq | .thresh _ _ _, _, _, hq => by
+    simp [noQuorum] at hq
 
 /-- what `satisfy` returns, when its candidate is canonical, has at most `max_stack_items` elements
     and `max_witness_size` bytes (each element counted with one length byte). -/
 theorem satisfy_within_bounds (hS : SigsSmall ctx env) (n : Ms) (h : s1Typed ctx n = true)
-    (hs : shaped ctx n = true) (hB : (typeOf ctx n).B = true) (w : List Bytes)
+    (hs : shaped ctx n = true) (hq : noQuorum n = true) (hB : (typeOf ctx n).B = true) (w : List Bytes)
     (hsat : satisfy ctx env n = .ok w) (hcan : (inputs ctx env n).sat.nonCanonical = false) :
     (∃ b, maxWitnessSize ctx n = some b ∧ wsum w ≤ b) ∧
     (∃ m, maxStackItems ctx n = some m ∧ (w.length : Int) ≤ m) := by
-  have hbd := (bd_s1 ctx env hS n h hs).1
+  have hbd := (bd_s1 ctx env hS n h hs hq).1
   unfold satisfy at hsat
   cases hst : (inputs ctx env n).sat.stack with
   | none => simp [hst] at hsat
